@@ -920,6 +920,141 @@ mut("C04", "SILENT_rem_euclid", SI, """                let stride = interval_lef
                 let remainder = interval_left.start.try_to_i128()?.rem_euclid(stride);""", [], "same residue through rem_euclid")
 mut("C04", "SILENT_difference_divisible", SI, "    if (base_left - base_right) % gcd != 0 {", "    let difference = base_right - base_left;\n    if !(difference % gcd == 0) {", [], "equivalent congruence test")
 
+# ---------------- C02
+BO = L + "abstract_domain/interval/bin_ops.rs"
+mut("C02", "dispatch_sub_to_add", IV, "            IntSub => self.sub(rhs),", "            IntSub => self.add(rhs),", ["R1|IntSub|primitives"], "IntSub handled by add")
+mut("C02", "dispatch_mult_to_add", IV, "            IntMult => self.signed_mul(rhs),", "            IntMult => self.add(rhs),", ["R1|IntMult|primitives"], "IntMult handled by add")
+mut("C02", "operator_sub_is_add", IV, "        self.bin_op(BinOpType::IntSub, &rhs)", "        self.bin_op(BinOpType::IntAdd, &rhs)", ["R1|operator|Sub"], "impl Sub evaluates IntAdd")
+mut("C02", "generic_fold_or", IV, """                let new_interval = if self.interval.start == self.interval.end
+                    && rhs.interval.start == rhs.interval.end""", """                let new_interval = if self.interval.start == self.interval.end
+                    || rhs.interval.start == rhs.interval.end""", ["R2|fold|both-single-values"], "fold if one operand is a single value")
+mut("C02", "generic_fold_lhs_only", IV, """                let new_interval = if self.interval.start == self.interval.end
+                    && rhs.interval.start == rhs.interval.end
+                {""", """                let new_interval = if self.interval.start == self.interval.end {""", ["R2|fold|both-single-values"], "fold without testing rhs")
+mut("C02", "generic_fold_swapped", IV, "                    if let Ok(bitvec) = self.interval.start.bin_op(op, &rhs.interval.start) {", "                    if let Ok(bitvec) = rhs.interval.start.bin_op(op, &self.interval.start) {", ["R2|fold|operand-order"], "operands swapped in the fold")
+mut("C02", "generic_top_operand_width", IV, """                } else {
+                    Interval::new_top(self.bin_op_bytesize(op, rhs))
+                };""", """                } else {
+                    Interval::new_top(self.bytesize())
+                };""", ["R2|top-width"], "Top of operand width for comparison ops")
+mut("C02", "sub_start_pairs_start", SI, """            self.start.signed_sub_overflow_checked(&rhs.end),
+            self.end.signed_sub_overflow_checked(&rhs.start),""", """            self.start.signed_sub_overflow_checked(&rhs.start),
+            self.end.signed_sub_overflow_checked(&rhs.end),""", ["R3|sub|start", "R3|sub|end"], "subtraction bounds not crossed")
+mut("C02", "add_end_pairs_start", SI, "            self.end.signed_add_overflow_checked(&rhs.end),", "            self.end.signed_add_overflow_checked(&rhs.start),", ["R3|add|end"], "upper bound of a sum uses rhs.start")
+mut("C02", "mul_three_corners", SI, "        let min = signed_min(&val1.0, &signed_min(&val2.0, &signed_min(&val3.0, &val4.0)));", "        let min = signed_min(&val1.0, &signed_min(&val2.0, &val3.0));", ["R3|signed_mul|start|corners"], "minimum over three corner products")
+mut("C02", "mul_flag_untested", SI, "        if val1.1 || val2.1 || val3.1 || val4.1 {", "        if val1.1 || val2.1 || val4.1 {", ["R3|signed_mul|overflow-flags"], "overflow of one corner product ignored")
+mut("C02", "mul_min_is_max", SI, "        let min = signed_min(&val1.0, &signed_min(&val2.0, &signed_min(&val3.0, &val4.0)));", "        let min = signed_max(&val1.0, &signed_max(&val2.0, &signed_max(&val3.0, &val4.0)));", ["R3|signed_mul|start|fold"], "start is the maximum of the products")
+mut("C02", "signed_min_returns_max", SI, """fn signed_min(v1: &Bitvector, v2: &Bitvector) -> Bitvector {
+    if v1.checked_sle(v2).unwrap() {""", """fn signed_min(v1: &Bitvector, v2: &Bitvector) -> Bitvector {
+    if v1.checked_sge(v2).unwrap() {""", ["R3|signed_mul|start|fold"], "signed_min helper computes the maximum")
+mut("C02", "neg_not_crossed", SI, """                start: -self.end,
+                end: -self.start,""", """                start: -self.start,
+                end: -self.end,""", ["R4|int_2_comp|crossed"], "negation keeps bound order")
+mut("C02", "neg_no_min_guard", SI, """        if self
+            .start
+            .checked_sgt(&Bitvector::signed_min_value(self.bytesize().into()))
+            .unwrap()
+        {
+            Interval {
+                start: -self.end,
+                end: -self.start,
+                stride: self.stride,
+            }
+        } else {
+            Interval::new_top(self.bytesize())
+        }""", """        Interval {
+            start: -self.end,
+            end: -self.start,
+            stride: self.stride,
+        }""", ["R4|int_2_comp|min-guard"], "negation without MIN guard")
+mut("C02", "neg_hints_not_crossed", IV, "                let new_lower_bound = self.widening_upper_bound.clone().map(|bound| -bound);", "                let new_lower_bound = self.widening_lower_bound.clone().map(|bound| -bound);", ["R4|un_op|Int2Comp|widening_lower_bound"], "lower hint of -x from lower hint of x")
+mut("C02", "floatnan_operand_width", IV, "            FloatNaN => IntervalDomain::new_top(ByteSize::new(1)),", "            FloatNaN => IntervalDomain::new_top(self.bytesize()),", ["R5|un_op|FloatNaN|top-width"], "FloatNaN result as wide as operand")
+mut("C02", "boolnegate_polarity", IV, """                    if self.interval.start == Bitvector::zero(ByteSize::new(1).into()) {
+                        Bitvector::one(ByteSize::new(1).into()).into()
+                    } else {
+                        Bitvector::zero(ByteSize::new(1).into()).into()
+                    }""", """                    if self.interval.start == Bitvector::zero(ByteSize::new(1).into()) {
+                        Bitvector::zero(ByteSize::new(1).into()).into()
+                    } else {
+                        Bitvector::one(ByteSize::new(1).into()).into()
+                    }""", ["R5|un_op|BoolNegate|polarity"], "BoolNegate is the identity")
+mut("C02", "bitnot_always", SI, """        if self.start == self.end {
+            self.start.into_bitnot().into()
+        } else {
+            Interval::new_top(self.bytesize())
+        }""", """        self.start.into_bitnot().into()""", ["R5|bitwise_not|single-values-only"], "bitwise not of start for any interval")
+mut("C02", "zext_is_sext", IV, "                self.clone().zero_extend(width)", "                self.clone().sign_extend(width)", ["R6|cast|IntZExt|extension"], "IntZExt sign-extends")
+mut("C02", "trunc_top_operand_width", IV, "            Float2Float | Int2Float | Trunc => IntervalDomain::new_top(width),", "            Float2Float | Int2Float | Trunc => IntervalDomain::new_top(self.bytesize()),", ["R6|cast|float-and-trunc"], "Top of operand width for width-changing casts")
+mut("C02", "popcount_operand_width", IV, """                    IntervalDomain::new(
+                        Bitvector::zero(width.into()),
+                        Bitvector::from_u64(self.bytesize().as_bit_length() as u64)
+                            .into_zero_resize(width),
+                    )
+                }
+            }
+            LzCount => {""", """                    IntervalDomain::new(
+                        Bitvector::zero(self.bytesize().into()),
+                        Bitvector::from_u64(self.bytesize().as_bit_length() as u64)
+                            .into_zero_resize(self.bytesize()),
+                    )
+                }
+            }
+            LzCount => {""", ["R6|cast|PopCount|result-width"], "PopCount result at operand width")
+mut("C02", "subpiece_args_swapped", IV, "            interval_domain = interval_domain.subpiece_higher(low_byte);", "            interval_domain = interval_domain.subpiece_higher(size);", ["R7|IntervalDomain::subpiece|subpiece_higher|argument"], "subpiece_higher(size)")
+mut("C02", "subpiece_lower_no_order_guard", SI, """            if start.checked_sle(&end).unwrap() {
+                return Interval {
+                    start,
+                    end,
+                    stride: self.stride,
+                };
+            }""", """            return Interval {
+                start,
+                end,
+                stride: self.stride,
+            };""", ["R7|subpiece_lower|order-guard"], "truncated interval may wrap")
+mut("C02", "mul_stride_regress", SI, """        let stride = if min == max {
+            0
+        } else {
+            self.stride.gcd(rhs.stride)
+        };
+        Interval {
+            start: min,
+            end: max,
+            stride,
+        }""", """        Interval {
+            start: min,
+            end: max,
+            stride: self.stride.gcd(rhs.stride),
+        }""", ["R8|signed_mul"], "reverts fix 3782478")
+mut("C02", "SILENT_sub_via_tuple", SI, """        if let (Some(start), Some(end)) = (
+            self.start.signed_sub_overflow_checked(&rhs.end),
+            self.end.signed_sub_overflow_checked(&rhs.start),
+        ) {
+            Interval {
+                start,
+                end,
+                stride: self.stride.gcd(rhs.stride),
+            }
+        } else {
+            Interval::new_top(self.bytesize())
+        }""", """        let lower = self.start.signed_sub_overflow_checked(&rhs.end);
+        let upper = self.end.signed_sub_overflow_checked(&rhs.start);
+        match (lower, upper) {
+            (Some(start), Some(end)) => Interval {
+                start,
+                end,
+                stride: self.stride.gcd(rhs.stride),
+            },
+            _ => Interval::new_top(self.bytesize()),
+        }""", [], "same subtraction in match form")
+mut("C02", "SILENT_generic_fold_try_to_bitvec", IV, """                let new_interval = if self.interval.start == self.interval.end
+                    && rhs.interval.start == rhs.interval.end
+                {
+                    if let Ok(bitvec) = self.interval.start.bin_op(op, &rhs.interval.start) {""", """                let new_interval = if rhs.interval.start == rhs.interval.end
+                    && self.interval.end == self.interval.start
+                {
+                    if let Ok(bitvec) = self.interval.end.bin_op(op, &rhs.interval.end) {""", [], "equivalent fold on the end bounds")
+
 for prop, name, spec in M:
     if name.startswith("SILENT_"):
         spec["silent"] = True
